@@ -27,8 +27,8 @@ def gen(rng, tier):
     from harness.props.c03 import DIRECTED
     for c, seed, path in DIRECTED:
         if c in ("secp256k1", "nist256p1"):
-            for k in range(len(path)):
-                yield Case("derive", [c, seed, nats(path), k], "vector-public")
+            for k in range(len(path) + 1):
+                yield Case("derive", [c, seed, nats(path), k], "vector-public" if k < len(path) else "vector-private")
     # directed: children whose HMAC left half IL, or whose child public key x, starts with zero bytes (fixed-width conversions)
     import hmac, hashlib
     for i in range(8 if tier == "quick" else 200):
@@ -61,6 +61,11 @@ def gen(rng, tier):
         yield Case("kholawderive", [kind, hx(seed), nats(pre + post), len(pre)], "pub-" + kind)
         if i % 5 == 0:
             yield Case("kholawderive", [kind, hx(seed), nats(pre + [rand_index(rng, True)]), len(pre)], "neg-hardened")
+
+
+def Bip32Slip10Secp256k1_():
+    from bip_utils import Bip32Slip10Secp256k1
+    return Bip32Slip10Secp256k1
 
 
 def _kvs():
@@ -191,6 +196,31 @@ def relations(rng, tier, rpt):
         try:
             b.PrivateKey()
             rep("%s[%s]: public-only object yields a private key" % (cls_.__name__, coin_.name), seed.hex(), "ok", "Bip32KeyError")
+        except Bip32KeyError:
+            pass
+    # Electrum v2 wallets on a public-only master: the standard wallet is watch-only (same keys and addresses, no private keys); the
+    # segwit wallet needs the hardened account m/0' and must refuse a public-only master with the key error
+    from bip_utils import ElectrumV2Segwit
+    for i in range(4 if tier == "quick" else 60):
+        seed = rand_seed(rng)
+        full = Bip32Slip10Secp256k1_().FromSeed(seed)
+        pubm = Bip32Slip10Secp256k1_().FromExtendedKey(full.PublicKey().ToExtended())
+        n += 1
+        fs, ws = ElectrumV2Standard(full), ElectrumV2Standard(pubm)
+        for ch, ad in ((0, 0), (1, 7), (0, rng.getrandbits(31))):
+            if fs.GetAddress(ch, ad) != ws.GetAddress(ch, ad) or fs.GetPublicKey(ch, ad).RawCompressed().ToBytes() != ws.GetPublicKey(ch, ad).RawCompressed().ToBytes():
+                rep("Electrum v2 standard watch-only wallet differs from the full wallet", "%s (%d,%d)" % (seed.hex(), ch, ad), ws.GetAddress(ch, ad), fs.GetAddress(ch, ad))
+        try:
+            ws.GetPrivateKey(0, 0)
+            rep("Electrum v2 watch-only wallet yields a private key", seed.hex(), "ok", "Bip32KeyError")
+        except Bip32KeyError:
+            pass
+        try:
+            wseg = ElectrumV2Segwit(pubm)
+            got = wseg.GetAddress(0, 0)
+            want = ElectrumV2Segwit(full).GetAddress(0, 0)
+            rep("Electrum v2 segwit wallet built on a public-only master (its account m/0' is hardened)" + ("" if got == want else " and derives different addresses"),
+                seed.hex(), got, "Bip32KeyError (or the full wallet's %s)" % want)
         except Bip32KeyError:
             pass
     # conversion after use: an object converted to public-only behaves as public-only whatever was derived from it before
